@@ -267,6 +267,8 @@ type call struct {
 	id      string
 	outcome string // ok denied fail lost  (natural failure: fail)
 	natural bool
+	unknown bool
+	injected string
 	piggy   []string
 	withSvc string
 }
@@ -283,6 +285,10 @@ type world struct {
 	calls   []call
 	errN    int
 	ops     []string
+	// aclMode: the server vets every agent RPC with a real policy authorizer built from the
+	// token of the request (drift writers stay unrestricted); refusals then arise naturally
+	aclMode  bool
+	agentTok string
 }
 
 func newFSM() *fsm.FSM {
@@ -294,9 +300,14 @@ func newFSM() *fsm.FSM {
 }
 
 func newWorld(run *hx.Run, nodeVal int, cfgTok, userTok string) *world {
-	w := &world{run: run, nodeVal: nodeVal, cfgTok: cfgTok, userTok: userTok, f: newFSM(), idx: 10, faults: map[string]string{}}
+	return newWorldACL(run, nodeVal, cfgTok, userTok, false, "agent-token")
+}
+
+func newWorldACL(run *hx.Run, nodeVal int, cfgTok, userTok string, aclMode bool, agentTok string) *world {
+	w := &world{run: run, nodeVal: nodeVal, cfgTok: cfgTok, userTok: userTok, f: newFSM(), idx: 10, faults: map[string]string{},
+		aclMode: aclMode, agentTok: agentTok}
 	tokens := new(token.Store)
-	tokens.UpdateAgentToken("agent-token", token.TokenSourceConfig)
+	tokens.UpdateAgentToken(agentTok, token.TokenSourceConfig)
 	tokens.UpdateUserToken(userTok, token.TokenSourceConfig)
 	tokens.UpdateConfigFileRegistrationToken(cfgTok, token.TokenSourceConfig)
 	w.st = local.NewState(local.Config{
@@ -337,16 +348,55 @@ func (w *world) apply(t structs.MessageType, req any) error {
 
 var authzAll = resolver.Result{Authorizer: acl.ManageAll()}
 
+// token -> rules, for aclMode. Default is deny.
+var tokenRules = map[string]string{
+	"agent-token": `node_prefix "" { policy = "write" } service_prefix "" { policy = "read" }`,
+	"weak-agent":  `service_prefix "" { policy = "write" }`, // an agent token without node:write
+	"t1":          `service "web" { policy = "write" } service "api" { policy = "write" }`,
+	"t2":          `service_prefix "" { policy = "write" }`,
+	"usertok":     `service "db" { policy = "write" } node_prefix "" { policy = "write" }`,
+	"cfgtok":      `service_prefix "" { policy = "write" } node_prefix "" { policy = "write" }`,
+}
+var authzCache = map[string]resolver.Result{}
+
+func authzFor(tok string) resolver.Result {
+	if a, ok := authzCache[tok]; ok {
+		return a
+	}
+	var pols []*acl.Policy
+	if rules, ok := tokenRules[tok]; ok {
+		p, err := acl.NewPolicyFromSource(rules, nil, nil)
+		if err != nil {
+			panic(err)
+		}
+		pols = append(pols, p)
+	}
+	az, err := acl.NewPolicyAuthorizerWithDefaults(acl.DenyAll(), pols, nil)
+	if err != nil {
+		panic(err)
+	}
+	authzCache[tok] = resolver.Result{Authorizer: az}
+	return authzCache[tok]
+}
+
 // serverRegister is Catalog.Register on the leader: pre-apply vetting, then the Raft command.
 func (w *world) serverRegister(req *structs.RegisterRequest) error {
-	if err := consul.VerifCatalogRegisterPre(authzAll, w.store(), req); err != nil {
+	az := authzAll
+	if w.aclMode && req.Token != "drift" {
+		az = authzFor(req.Token)
+	}
+	if err := consul.VerifCatalogRegisterPre(az, w.store(), req); err != nil {
 		return err
 	}
 	return w.apply(structs.RegisterRequestType, req)
 }
 
 func (w *world) serverDeregister(req *structs.DeregisterRequest) error {
-	if err := consul.VerifCatalogDeregisterPre(authzAll, w.store(), req); err != nil {
+	az := authzAll
+	if w.aclMode && req.Token != "drift" {
+		az = authzFor(req.Token)
+	}
+	if err := consul.VerifCatalogDeregisterPre(az, w.store(), req); err != nil {
 		return err
 	}
 	return w.apply(structs.DeregisterRequestType, req)
@@ -477,6 +527,7 @@ func (w *world) RPC(_ context.Context, method string, args interface{}, reply in
 		if c.outcome == "" {
 			c.outcome = "ok"
 		}
+		c.injected = c.outcome
 		var err error
 		switch c.outcome {
 		case "denied":
@@ -486,6 +537,9 @@ func (w *world) RPC(_ context.Context, method string, args interface{}, reply in
 		default:
 			if err = w.serverRegister(req); err != nil {
 				c.outcome, c.natural = "fail", true
+				if acl.IsErrPermissionDenied(err) {
+					c.outcome = "denied"
+				}
 			} else if c.outcome == "lost" {
 				err = w.failErr()
 			}
@@ -510,6 +564,7 @@ func (w *world) RPC(_ context.Context, method string, args interface{}, reply in
 		if c.outcome == "" {
 			c.outcome = "ok"
 		}
+		c.injected = c.outcome
 		var err error
 		switch c.outcome {
 		case "denied":
@@ -519,6 +574,14 @@ func (w *world) RPC(_ context.Context, method string, args interface{}, reply in
 		default:
 			if err = w.serverDeregister(req); err != nil {
 				c.outcome, c.natural = "fail", true
+				switch {
+				case acl.IsErrPermissionDenied(err):
+					c.outcome = "denied"
+				case strings.Contains(err.Error(), "Unknown service") || strings.Contains(err.Error(), "Unknown check"):
+					// the server (without node:write) reports an entry it does not hold: the agent treats this
+					// as done; nothing was there to remove, so for the model this is an ok deregistration
+					c.outcome, c.unknown = "ok", true
+				}
 			} else if c.outcome == "lost" {
 				err = w.failErr()
 			}
@@ -629,10 +692,35 @@ func encFaults(f map[string]string) string {
 	return hx.EncList(ts)
 }
 
+// panicCheck: the only panic the local state is known to raise is the nil dereference when a
+// service/check is (re)registered over a remote-only placeholder (side finding, reproduced by the
+// model as result "panic"); anything else is reported.
+func (w *world) panicCheck(res string, pre snap, svcID string, chkIDs []string) {
+	if res != "panic" {
+		return
+	}
+	if e, ok := pre.ls[svcID]; ok && e.ghost {
+		w.run.Tag("panic:placeholder-reregister")
+		return
+	}
+	for _, k := range chkIDs {
+		if e, ok := pre.lc[k]; ok && e.ghost {
+			w.run.Tag("panic:placeholder-reregister")
+			return
+		}
+	}
+	w.violate("panic:unexpected-panic-in-local-state", "local registration panicked without a placeholder being involved")
+}
+
 func (w *world) exec(o op) {
 	run := w.run
 	switch o.kind {
 	case "addsvc":
+		pre := w.snapshot()
+		var ids []string
+		for _, c := range o.chks {
+			ids = append(ids, c.id)
+		}
 		var hcs []*structs.HealthCheck
 		var cs []string
 		for _, c := range o.chks {
@@ -641,10 +729,16 @@ func (w *world) exec(o op) {
 		}
 		res := guard(func() error { return w.st.AddServiceWithChecks(mkService(o.id, o.sd), hcs, o.tok, o.isLocal) })
 		run.Tag("op:addsvc:" + res)
+		if e, ok := pre.ls[o.id]; ok && e.live() && !e.inSync && !svcHeld(pre, o.id, e.d) && e.d.equal(o.sd) && res == "ok" {
+			run.Tag("identical-reregister-of-unsynced-service-marks-in-sync")
+		}
+		w.panicCheck(res, pre, o.id, ids)
 		w.line(fmt.Sprintf("addsvc %s %s %s %s %s", hx.EncS(o.id), o.sd.enc(), hx.EncS(o.tok), hx.EncBool(o.isLocal), hx.EncList(cs)), res+" "+w.snapshot().dump())
 	case "addchk":
+		pre := w.snapshot()
 		res := guard(func() error { return w.st.AddCheck(mkCheck(o.id, o.cd), o.tok, o.isLocal) })
 		run.Tag("op:addchk:" + res)
+		w.panicCheck(res, pre, "", []string{o.id})
 		w.line(fmt.Sprintf("addchk %s %s %s %s", hx.EncS(o.id), o.cd.enc(), hx.EncS(o.tok), hx.EncBool(o.isLocal)), res+" "+w.snapshot().dump())
 	case "rmsvc":
 		var cids []structs.CheckID
@@ -675,26 +769,27 @@ func (w *world) exec(o op) {
 		w.line(fmt.Sprintf("dchk %s %s", hx.EncS(o.id), o.cd.enc()), res+" "+w.snapshot().dump())
 	case "drmsvc":
 		res := guard(func() error {
-			return w.serverDeregister(&structs.DeregisterRequest{Datacenter: "dc1", Node: nodeName, ServiceID: o.id})
+			return w.serverDeregister(&structs.DeregisterRequest{Datacenter: "dc1", Node: nodeName, ServiceID: o.id, WriteRequest: structs.WriteRequest{Token: "drift"}})
 		})
 		run.Tag("op:drmsvc:" + res)
 		w.line("drmsvc "+hx.EncS(o.id), res+" "+w.snapshot().dump())
 	case "drmchk":
 		res := guard(func() error {
-			return w.serverDeregister(&structs.DeregisterRequest{Datacenter: "dc1", Node: nodeName, CheckID: types.CheckID(o.id)})
+			return w.serverDeregister(&structs.DeregisterRequest{Datacenter: "dc1", Node: nodeName, CheckID: types.CheckID(o.id), WriteRequest: structs.WriteRequest{Token: "drift"}})
 		})
 		run.Tag("op:drmchk:" + res)
 		w.line("drmchk "+hx.EncS(o.id), res+" "+w.snapshot().dump())
 	case "dnode":
 		res := guard(func() error {
 			return w.serverRegister(&structs.RegisterRequest{Datacenter: "dc1", ID: nodeID, Node: nodeName, Address: nodeAddr,
-				TaggedAddresses: map[string]string{"lan": nodeAddr}, NodeMeta: map[string]string{"v": strconv.Itoa(o.val)}})
+				TaggedAddresses: map[string]string{"lan": nodeAddr}, NodeMeta: map[string]string{"v": strconv.Itoa(o.val)},
+				WriteRequest: structs.WriteRequest{Token: "drift"}})
 		})
 		run.Tag("op:dnode:" + res)
 		w.line(fmt.Sprintf("dnode %d", o.val), res+" "+w.snapshot().dump())
 	case "drmnode":
 		res := guard(func() error {
-			return w.serverDeregister(&structs.DeregisterRequest{Datacenter: "dc1", Node: nodeName})
+			return w.serverDeregister(&structs.DeregisterRequest{Datacenter: "dc1", Node: nodeName, WriteRequest: structs.WriteRequest{Token: "drift"}})
 		})
 		run.Tag("op:drmnode:" + res)
 		w.line("drmnode", res+" "+w.snapshot().dump())
@@ -710,7 +805,7 @@ func (w *world) exec(o op) {
 func (w *world) driftReq(svc *structs.NodeService, chk *structs.HealthCheck) *structs.RegisterRequest {
 	return &structs.RegisterRequest{Datacenter: "dc1", ID: nodeID, Node: nodeName, Address: nodeAddr,
 		TaggedAddresses: map[string]string{"lan": nodeAddr}, NodeMeta: map[string]string{"v": "0"},
-		SkipNodeUpdate: true, Service: svc, Check: chk}
+		SkipNodeUpdate: true, Service: svc, Check: chk, WriteRequest: structs.WriteRequest{Token: "drift"}}
 }
 
 func (w *world) sync(o op) {
@@ -735,12 +830,44 @@ func (w *world) sync(o op) {
 	post := w.snapshot()
 	var so, co []string
 	clean := len(o.faults) == 0
+	lineFaults := map[string]string{}
+	for k, v := range o.faults {
+		lineFaults[k] = v
+	}
 	for _, c := range calls {
 		switch c.kind {
 		case "sreg", "sdel":
 			so = append(so, c.id)
 		case "creg", "cdel":
 			co = append(co, c.id)
+		}
+		// the outcome the model is told for this call: what was observed — except for a failure the
+		// server code produced by itself, which the model has to predict from the injected outcome
+		told := c.outcome
+		if c.natural && c.outcome == "fail" {
+			told = c.injected
+		}
+		var fkey string
+		switch c.kind {
+		case "n":
+			fkey = "n"
+		case "sreg", "sdel":
+			fkey = "s!" + c.id
+		case "creg", "cdel":
+			fkey = "c!" + c.id
+		}
+		if fkey != "" {
+			if told == "ok" {
+				delete(lineFaults, fkey)
+			} else {
+				lineFaults[fkey] = told
+			}
+		}
+		if c.natural && c.outcome == "denied" {
+			run.Tag("acl:refused-by-real-policy:" + c.kind)
+		}
+		if c.unknown {
+			run.Tag("acl:deregister-unknown-entry-treated-as-done:" + c.kind)
 		}
 		tag := "call:" + c.kind + ":" + c.outcome
 		if c.natural {
@@ -767,8 +894,20 @@ func (w *world) sync(o op) {
 			run.Tag("placeholder:check")
 		}
 	}
+	for id, e := range post.ls {
+		if pe, was := pre.ls[id]; was && pe.live() && e.live() && !pe.d.equal(e.d) {
+			if strings.Join(pe.d.tags, ",") != strings.Join(e.d.tags, ",") {
+				run.Tag("server-owned:tags-absorbed(EnableTagOverride)")
+			} else {
+				run.Tag("server-owned:tagged-addresses-merged")
+			}
+		}
+	}
+	if !pre.localWF() {
+		run.Tag("sync:local-state-not-well-formed(raw ops)")
+	}
 	run.Tag(fmt.Sprintf("op:%s:%s:%s", o.kind, map[bool]string{true: "clean", false: "faulty"}[clean], res))
-	w.line(fmt.Sprintf("%s %s %s %s", o.kind, encFaults(o.faults), hx.EncSList(so), hx.EncSList(co)), res+" "+post.dump())
+	w.line(fmt.Sprintf("%s %s %s %s", o.kind, encFaults(lineFaults), hx.EncSList(so), hx.EncSList(co)), res+" "+post.dump())
 	w.monitors(o.kind, pre, post, calls, clean, res)
 }
 
@@ -1191,10 +1330,27 @@ func (w *world) finishCase() {
 }
 
 func randomCase(run *hx.Run, r *hx.RNG, maxOps int) {
-	w := newWorld(run, 1+r.Intn(2), hx.Pick(r, []string{"", "cfgtok"}), hx.Pick(r, []string{"", "usertok", "t1"}))
+	var w *world
+	if r.Chance(35) {
+		agentTok := "agent-token"
+		if r.Chance(25) {
+			agentTok = "weak-agent"
+		}
+		w = newWorldACL(run, 1+r.Intn(2), hx.Pick(r, []string{"", "cfgtok"}), hx.Pick(r, []string{"", "usertok", "t1", "t2"}), true, agentTok)
+		run.Tag("case:real-acl-policies:" + agentTok)
+	} else {
+		w = newWorld(run, 1+r.Intn(2), hx.Pick(r, []string{"", "cfgtok"}), hx.Pick(r, []string{"", "usertok", "t1"}))
+		run.Tag("case:injected-outcomes-only")
+	}
 	n := 2 + r.Intn(maxOps)
 	for i := 0; i < n; i++ {
-		w.exec(w.genOp(r))
+		o := w.genOp(r)
+		if i < 2 && r.Chance(60) { // most histories start by registering something
+			for o.kind != "addsvc" {
+				o = w.genOp(r)
+			}
+		}
+		w.exec(o)
 	}
 	if r.Chance(70) {
 		s := w.snapshot()
@@ -1273,47 +1429,70 @@ func scripted(run *hx.Run) {
 		w.exec(op{kind: "full", faults: map[string]string{"n": "fail"}})
 		w.finishCase()
 	}
+	// 7. real ACL policies: t1 may write web/api but not db; the refusal is retried at every full sync;
+	//    an agent token without node:write gets "Unknown service" for an entry the catalog lacks
+	{
+		w := newWorldACL(run, 1, "", "", true, "weak-agent")
+		db := svcDef{name: "db", port: 5432}
+		w.exec(op{kind: "addsvc", id: "web", sd: web, tok: "t1", chks: []chkItem{{"c1", c1}}})
+		w.exec(op{kind: "addsvc", id: "db", sd: db, tok: "t1"})
+		w.exec(op{kind: "full"})
+		w.exec(op{kind: "partial"})
+		w.exec(op{kind: "full"})
+		w.exec(op{kind: "rmsvc", id: "db"})
+		w.exec(op{kind: "addchk", id: "c2", cd: chkDef{status: 1}, tok: "t1"})
+		w.exec(op{kind: "partial"})
+		w.exec(op{kind: "dsvc", id: "api", sd: api})
+		w.finishCase()
+	}
 }
 
-// exhaustive fault vectors over a fixed small scenario (thorough tier)
-func exhaustive(run *hx.Run, variant int) {
+// fault vectors over a fixed small scenario with 7 RPCs: every vector of {ok,denied,fail}^7 in the
+// thorough tier (a quarter of them in quick) plus a sample of vectors that also use "lost"
+func faultScenario(run *hx.Run, f map[string]string) {
 	web := svcDef{name: "web", tags: []string{"a"}, port: 80}
 	api := svcDef{name: "api", port: 81}
+	w := newWorld(run, 1, "", "")
+	// web+c1 registered and synced, then: api new with c2 (other token), db remote-only with c3, c1 changed, node gone
+	w.exec(op{kind: "addsvc", id: "web", sd: web, chks: []chkItem{{"c1", chkDef{sid: "web", status: 0, sname: "web", stags: []string{"a"}}}}})
+	w.exec(op{kind: "full"})
+	w.exec(op{kind: "addsvc", id: "api", sd: api})
+	w.exec(op{kind: "addchk", id: "c2", cd: chkDef{sid: "api", status: 1, sname: "api"}, tok: "t1"})
+	w.exec(op{kind: "updchk", id: "c1", val: 4})
+	w.exec(op{kind: "drmnode"})
+	w.exec(op{kind: "dsvc", id: "db", sd: svcDef{name: "db", port: 5432}})
+	w.exec(op{kind: "dchk", id: "c3", cd: chkDef{sid: "db", status: 2}})
+	w.exec(op{kind: "full", faults: f})
+	w.exec(op{kind: "partial"})
+	w.finishCase()
+	run.Tag("fault-vector-scenario")
+}
+
+func exhaustive(run *hx.Run) {
 	keys := []string{"n", "s!web", "s!api", "s!db", "c!c1", "c!c2", "c!c3"}
-	outs := []string{"ok", "denied", "fail", "lost"}
-	total := 1
-	for range keys {
-		total *= len(outs)
-	}
-	for v := 0; v < total; v++ {
-		if variant == 0 && v%7 != 0 { // quick tier: a slice of the space
-			continue
-		}
+	vec := func(v int, outs []string) map[string]string {
 		f := map[string]string{}
-		x := v
 		for _, k := range keys {
-			if o := outs[x%len(outs)]; o != "ok" {
+			if o := outs[v%len(outs)]; o != "ok" {
 				f[k] = o
 			}
-			x /= len(outs)
+			v /= len(outs)
 		}
-		w := newWorld(run, 1, "", "")
-		// web+c1 registered and synced, then: api new with c2 (other token), db remote-only with c3, web changed
-		w.exec(op{kind: "addsvc", id: "web", sd: web, chks: []chkItem{{"c1", chkDef{sid: "web", status: 0, sname: "web", stags: []string{"a"}}}}})
-		w.exec(op{kind: "full"})
-		w.exec(op{kind: "addsvc", id: "api", sd: api})
-		w.exec(op{kind: "addchk", id: "c2", cd: chkDef{sid: "api", status: 1, sname: "api"}, tok: "t1"})
-		w.exec(op{kind: "dsvc", id: "db", sd: svcDef{name: "db", port: 5432}})
-		w.exec(op{kind: "dchk", id: "c3", cd: chkDef{sid: "db", status: 2}})
-		w.exec(op{kind: "updchk", id: "c1", val: 4})
-		w.exec(op{kind: "drmnode"})
-		w.exec(op{kind: "dsvc", id: "db", sd: svcDef{name: "db", port: 5432}})
-		w.exec(op{kind: "dchk", id: "c3", cd: chkDef{sid: "db", status: 2}})
-		w.exec(op{kind: "full", faults: f})
-		w.exec(op{kind: "partial"})
-		w.finishCase()
-		run.Tag("exhaustive-fault-vector")
+		return f
 	}
+	three := []string{"ok", "denied", "fail"}
+	four := []string{"ok", "denied", "fail", "lost"}
+	for v := 0; v < 2187; v++ {
+		if !run.Thorough() && v%4 != int(run.Seed%4) {
+			continue
+		}
+		faultScenario(run, vec(v, three))
+	}
+	r := run.RNG.Fork(0xfa17)
+	for i := run.Scale(150, 500); i > 0; i-- {
+		faultScenario(run, vec(r.Intn(16384), four))
+	}
+	run.Extra["exhaustive"] = map[string]any{"scenario": "7 RPCs (node, 3 services, 3 checks)", "alphabet": "ok,denied,fail", "complete": run.Thorough()}
 }
 
 // ---------------------------------------------------------------- ae state machine
@@ -1369,12 +1548,8 @@ func main() {
 	run.Rule = "after every local change / drift / sync operation the agent's complete local state (flags included) and the node's catalog entries are printed; the Lean model CV.AE must print the same line"
 	scripted(run)
 	aeCases(run)
-	if run.Thorough() {
-		exhaustive(run, 1)
-	} else {
-		exhaustive(run, 0)
-	}
-	n := run.Scale(600, 6000)
+	exhaustive(run)
+	n := run.Scale(700, 3000)
 	for i := 0; i < n; i++ {
 		randomCase(run, run.RNG.Fork(uint64(i)), 4+i%12)
 	}
